@@ -204,6 +204,32 @@ def chain (model file code : List (String × PVal)) (name : String) : Option PVa
 
 def outputsOf (declared : List String) (controls : List String) : List String := declared ++ controls
 
+/-- an element of pymoca's `inputs` list as `ModelicaMixin.__init__` looks at it: its name, whether the
+    name is one of the model's delay states, whether it is listed in the `lookup_tables` keyword,
+    and its `fixed` attribute -/
+structure InputRec where
+  name : String
+  isDelay : Bool
+  isLookup : Bool
+  fixed : Bool
+deriving Repr, Inhabited, DecidableEq
+
+def InputRec.role (i : InputRec) : Role := inputRoleOpt i.isDelay i.isLookup i.fixed
+
+/-- the list `__init__` collects for one role (`self.__mx["control_inputs"]`, `["constant_inputs"]`,
+    `["lookup_tables"]`, the tail of `["algebraics"]`): the inputs of that role, in declaration order -/
+def roleListOf (r : Role) (inputs : List InputRec) : List String :=
+  (inputs.filter (fun i => i.role = r)).map (·.name)
+
+/-- `dae_variables["control_inputs"]` -/
+def controlsOf (inputs : List InputRec) : List String := roleListOf .control inputs
+
+/-- `output_variables` (names) from what pymoca delivers: the declared outputs, then the controls.
+    The alias relation is NOT an argument: an output that is an alias of a control (or of anything
+    else) does not remove anything from the list. -/
+def exportedOf (declared : List String) (inputs : List InputRec) : List String :=
+  outputsOf declared (controlsOf inputs)
+
 /-! ## simulation: which start value `initialize()` uses -/
 
 inductive Source where
